@@ -83,6 +83,12 @@ func init() {
 					}
 				}
 				tags["e2e-client-runs"]++
+				for _, sv := range c.served {
+					if sv.zero {
+						tags["e2e-clients-served-an-empty-200-body"]++
+						break
+					}
+				}
 				tags[fmt.Sprintf("e2e-outcome:v=%s,pl=%s,end=%s", r.variant, pl, c.end)]++
 				tags["e2e-units-delivered"] += units
 				tags["e2e-deliveries-with-absolute-time"] += abs
